@@ -1,0 +1,35 @@
+//go:build verif
+
+package serialization
+
+import (
+	"fmt"
+	"reflect"
+)
+
+// VerifRegisterType is GenericRegister for a type that only exists as a reflect.Type
+// (reflect.StructOf): the same pointer stripping, the same checks, the same two maps.
+// Registering the same type under the same key again is a no-op.
+func VerifRegisterType(key string, t reflect.Type) error {
+	for t.Kind() == reflect.Ptr {
+		t = t.Elem()
+	}
+	if nt, ok := m[key]; ok {
+		if nt == t {
+			return nil
+		}
+		return fmt.Errorf("key[%s] already registered to %s", key, nt.String())
+	}
+	if nk, ok := rm[t]; ok {
+		return fmt.Errorf("type[%s] already registered to %s", t.String(), nk)
+	}
+	m[key] = t
+	rm[t] = key
+	return nil
+}
+
+// VerifRegistered reports the key a type is registered under.
+func VerifRegistered(t reflect.Type) (string, bool) {
+	k, ok := rm[t]
+	return k, ok
+}
